@@ -66,6 +66,7 @@ type Contract struct {
 	LoopMod   map[int][]*Expr
 	Sites     []*SiteClause
 	ClosedHeap bool
+	ArgsOnly   bool
 	SiteCount map[string]int // sites <match> = N: the function has exactly N instructions the match selects
 	ModEach   []*ModEach
 	Lets      []struct {
@@ -338,7 +339,7 @@ func findDefEq(s string) int {
 func parseContract(key string, clauses []string, where string) (*Contract, error) {
 	c := &Contract{Key: key, LoopInv: map[int][]*Clause{}, LoopDecr: map[int][]*Expr{}, LoopMod: map[int][]*Expr{}, Where: where, Props: map[string]bool{}, SafetyProps: map[string]bool{}}
 	// clauses may themselves have been continued: a clause starts with a keyword
-	kw := regexp.MustCompile(`^(requires|ensures|modifies|allocates|pure|trusted|decreases|loop|maypanic|let|safety|formals|results|witness|replay|sites|site|opaque|perreturn|closedheap|exitghost|noframe|termination)\b`)
+	kw := regexp.MustCompile(`^(requires|ensures|modifies|allocates|pure|trusted|decreases|loop|maypanic|let|safety|formals|results|witness|replay|sites|site|opaque|perreturn|closedheap|argsonly|exitghost|noframe|termination)\b`)
 	var merged []string
 	for _, l := range clauses {
 		l = strings.TrimSpace(l)
@@ -422,6 +423,12 @@ func parseContract(key string, clauses []string, where string) (*Contract, error
 		case "noframe":
 			// no frame condition: nothing is promised about what the function leaves unchanged
 			c.NoFrame = true
+		case "argsonly":
+			// The contract speaks only about the arguments of the function's call sites (site assertions, sites
+			// counts). Calls are then plain havoc: no callee precondition is checked and no callee postcondition is
+			// assumed, loops need no invariant (everything is havocked at their heads), nothing is claimed about the
+			// function's effect. Used for the tag skeleton of generated writers.
+			c.ArgsOnly = true
 		case "closedheap":
 			// Go memory safety, as an assumption about the entry state: every pointer stored in memory refers to an
 			// object that is already allocated (objects created later are therefore distinct from everything the
